@@ -26,7 +26,7 @@ STR_VARS = {
     "os_name": ["posix", "nt", "java"],
     "sys_platform": ["linux", "win32", "darwin", "cygwin", "interix"],
     "platform_machine": ["x86_64", "AMD64", "arm64", "aarch64"],
-    "platform_system": ["Linux", "Windows", "Darwin"],
+    "platform_system": ["Linux", "Windows", "Darwin", 'Darwi"n'],   # a value with a double quote is written in single quotes (3046ca3)
     "platform_python_implementation": ["CPython", "PyPy", "Jython"],
     "implementation_name": ["cpython", "pypy"],
     "platform_version": ["10.0.19045", "#1 SMP Debian 5.10.0"],
@@ -74,6 +74,8 @@ def enc_env(e: dict[str, Any]) -> str:
 
 
 def q(rnd: random.Random, s: str) -> str:
+    if '"' in s:
+        return f"'{s}'"
     return f"'{s}'" if rnd.random() < 0.3 and "'" not in s else f'"{s}"'
 
 
